@@ -113,3 +113,18 @@ pub proof fn lemma_cat_views_n(v: Seq<Seq<char>>)
 {
     lemma_join_empty_sep(v);
 }
+
+// What Response::generate emits TODAY (known finding F10: the Content-Type of a single part is pushed onto `self`, not onto the
+// serialised copy).  Kept as a separate, weaker obligation so that a further change to generate() is still noticed.
+pub open spec fn framing_generate_as_is(list: Seq<ContentRange>) -> Seq<HV> {
+    if list.len() == 1 {
+        seq![
+            (Header::_CONTENT_RANGE@, content_range_value(list[0])),
+            (Header::_CONTENT_LENGTH@, dec(list[0].body@.len())),
+        ]
+    } else if list.len() > 1 {
+        seq![(Header::_CONTENT_TYPE@, multipart_content_type())]
+    } else {
+        Seq::empty()
+    }
+}
